@@ -36,6 +36,7 @@
            own question, 0 another answer, 2 no answer record), source
            address+port = where the query was sent, id echoed, UDP
            transmissions and TCP queries the upstream saw for this question.
+   kind 5 and kind 30: see check_adapt / check_rig below.
    Definitions only. *)
 From Erbium Require Import Lib.Base Model.Cmsg Model.OutQuery.
 
@@ -328,6 +329,33 @@ Definition check_batch (ts : list N) : list N :=
   | _ => v_bad
   end.
 
+(* ---------------------------------------------------------------- kind 5 *)
+(* [5; t0; mask; delay; silent; after; rcodeA; ownA; utxA; nrespB; rcodeB; elapsedB]
+   one service, UDP-only upstream (its TCP port refuses connections).  Query A: the upstream
+   drops the transmissions in [mask] and answers the others [delay] ms late.  [after] = the
+   global adaptive first-retry delay read through the hook once A is answered.  silent = 1:
+   then query B meets a silent upstream; nrespB/rcodeB/elapsedB (ms) what its client saw within
+   50.75 s + 1.5 s. *)
+Definition check_adapt (ts : list N) : list N :=
+  match ts with
+  | [t0; mask; delay; silent; after; rcodeA; ownA; utxA; nrespB; rcodeB; elapsedB] =>
+    let m := mask mod 16 in
+    let answerable := negb (m =? 15) && ((delay =? 0) || (negb (N.testbit m 0) && (delay <=? 2000))) in
+    (* SPEC *)
+    if (after <? MIN_TIMEOUT / MS) || (MAX_TIMEOUT / MS <? after) then v_viol 11
+    else if answerable && negb ((rcodeA =? 0) && (ownA =? 1)) then v_viol 13
+    else if negb (silent =? 0) && negb ((nrespB =? 1) && (rcodeB =? SERVFAIL) && (elapsedB <=? 50750 + 1500)) then v_viol 12
+    else if 4 <? utxA then v_viol 7
+    (* MODEL: a reply clearly later than the first timeout (>= 3 t0) takes the "too slow" branch *)
+    else if (3 * t0 <=? delay) && answerable then
+      (if after =? adapt (t0 * MS) (t0 * MS) (delay * MS) 2 / MS
+       then v_ok (if silent =? 0 then 12 else 13)
+       else v_diff [adapt (t0 * MS) (t0 * MS) (delay * MS) 2 / MS])
+    else if (after =? t0) || (after =? MAX_TIMEOUT / MS) then v_ok 11
+    else v_diff [t0]
+  | _ => v_bad
+  end.
+
 (* --------------------------------------------------------------- kind 30 *)
 (* end-to-end rig (real binary in a network namespace, tools/rig.py + rigcases.py):
    [30; listener; got; from_ok; id_ok]  listener 1 = IPv4-only 127.0.0.1, 2 = second IPv4
@@ -350,6 +378,7 @@ Definition check_C07 (ts : list N) : list N :=
   | 1 :: r => check_cmsg r
   | 3 :: r => check_demux r
   | 4 :: r => check_batch r
+  | 5 :: r => check_adapt r
   | 30 :: r => check_rig r
   | _ => v_bad
   end.
